@@ -583,6 +583,9 @@ def run(run, model):
     run.try_rule(r06_1, model, mir)
     run.try_rule(r06_2, model)
     run.try_rule(r06_17, model)
+    # rows, columns and cases of the match compiler are not reordered in a new place (G-SEQ restricted to compile_match.rs)
+    from rules import gseq
+    run.try_rule(gseq.r_seq, model, "R06.18", ("compile_match.rs",))
     run.try_rule(r06_3, model)
     run.try_rule(r06_4, model)
     run.try_rule(r06_5, model)
